@@ -15,11 +15,16 @@ import (
 // the instrumented library (edge coverage). It runs without scheduler and
 // without race detector; it only produces INPUTS for the simulation stages.
 // Deterministic: a fixed number of iterations from a seed.
-func (w *worker) modeCover(exec func(api uint8, in string) string, globals func() []interface{}) {
+func (w *worker) modeCover(exec func(api uint8, in string) (string, string), globals func() []interface{}) {
 	r := simrt.NewRNG(simrt.Mix(w.ses.Seed, uint64(w.ses.Worker), 0xc0de))
 	var dict []string
 	if globals != nil {
 		dict = collectStrings(globals())
+	}
+	for k := 0; k < 40; k++ {
+		dict = append(dict, w.ses.Words...) // novel words are drawn far more often
+		// runes with special case mapping / folding, odd spaces, BOM
+		dict = append(dict, "\u212a", "\u017f", "\u0130", "\u0131", "\u00a0", "\ufeff", "\u2028", "\u00df", "\uff1c", "\uff07")
 	}
 	var pool []string
 	for i, in := range w.c.In {
